@@ -65,7 +65,7 @@ Actions    == <<"", "", "", "cascade", "no action", "restrict", "set null", "set
 IdxTypes   == <<"", "", "btree", "hash", "gin", "gist", "brin", "spgist">>
 IdxNames   == <<"", "", "idx_1", "my index", "it's", "ix[0]">>
 Exprs      == <<"lower(name)", "id * 2", "now()", "(a) || (b)", "(lower(name))">>
-GroupNames == <<"g1", "my group", "TableGroup">>
+GroupNames == <<"g1", "my group", "TableGroup", "assets_g", "notes_g", "as">>      \* (names that START with a keyword of the grammar: as, note)
 StickyNames == <<"n1", "reminder_2", "v^2">>
 ProjNames  == <<"proj", "my project", "Project">>
 ProjKeys   == <<"database_type", "notes", "db[0]">>
@@ -193,11 +193,12 @@ RandRef(seed, r) ==
        ELSE [p EXCEPT !.type = CASE p.type = ">" -> "-" [] p.type = "-" -> ">" [] p.type = "<" -> "<>" [] OTHER -> "<"]
   ELSE RandRef0(seed, r)
 
+GName(seed, g) == GroupNames[((Off(seed, 19, Len(GroupNames)) + g) % Len(GroupNames)) + 1]      \* rotation: distinct names for distinct g
 RandGroup(seed, g) ==
   LET n == Num(seed, K(30 + g, 0, 1), 0, NTables(seed))
       off == Off(seed, K(30 + g, 0, 2), NTables(seed))
       it(i) == ((off + i) % NTables(seed)) + 1
-  IN [d |-> "group", name |-> GroupNames[g],
+  IN [d |-> "group", name |-> GName(seed, g),
       items |-> [i \in 1..n |-> LET a == Addr(seed, K(30 + g, i, 3), it(i)) IN [schema |-> a.schema, table |-> a.table]],
       note |-> Maybe(seed, K(30 + g, 0, 4), 30, Texts), color |-> Pick(seed, K(30 + g, 0, 6), Colors), comment |-> ""]
 
@@ -218,7 +219,7 @@ Shuffle(seed, ds) ==
 \* a document without any table: enums, empty groups, sticky notes, project
 TablelessDoc(seed) ==
   [e \in 1..Num(seed, 12, 0, 2) |-> RandEnum(seed, e)]
-  \o [g \in 1..Num(seed, 13, 0, 2) |-> [d |-> "group", name |-> GroupNames[g], items |-> <<>>,
+  \o [g \in 1..Num(seed, 13, 0, 2) |-> [d |-> "group", name |-> GName(seed, g), items |-> <<>>,
                                         note |-> Maybe(seed, K(30 + g, 0, 4), 30, Texts), color |-> Pick(seed, K(30 + g, 0, 6), Colors), comment |-> ""]]
   \o [n \in 1..Num(seed, 14, 0, 2) |-> RandSticky(seed, n)]
   \o [p \in 1..Num(seed, 15, 0, 1) |-> RandProject(seed)]
